@@ -24,6 +24,7 @@ import (
 	"net"
 	"net/http"
 	"strings"
+	"sync"
 	"syscall"
 	"time"
 
@@ -66,6 +67,11 @@ type revisionSyncer struct {
 	flight     singleflight.Group
 	schema     string
 	httpClient *http.Client
+
+	// syncMu guards synced, the largest revision fetched from the leader that has been
+	// installed in the backend; a fetched revision is installed only if it is larger
+	syncMu sync.Mutex
+	synced uint64
 }
 
 func defaultTransportDialContext(dialer *net.Dialer) func(context.Context, string, string) (net.Conn, error) {
@@ -123,8 +129,20 @@ func (r *revisionSyncer) SyncReadRevision() error {
 		klog.Errorf("sync read revision failed %v", err)
 		return fmt.Errorf("get revision from leader failed %v", err)
 	}
-	r.backend.SetCurrentRevision(currentRevision)
+	r.installRevision(currentRevision)
 	return nil
+}
+
+// installRevision makes the fetched revision the read revision of the backend unless a later
+// fetch has installed a larger one already: concurrent reads finish their fetches in any order
+// and the read revision of a follower must not move backwards.
+func (r *revisionSyncer) installRevision(revision uint64) {
+	r.syncMu.Lock()
+	defer r.syncMu.Unlock()
+	if revision > r.synced {
+		r.synced = revision
+		r.backend.SetCurrentRevision(revision)
+	}
 }
 
 // Close implements RevisionSyncer
